@@ -20,36 +20,55 @@ EXHAUSTIVE = True
 CASE_TIMEOUT = 1500
 RULE = (
     "work item = (seed program, transformation class, constructor variant); "
-    "inside it every target (each node, each consecutive child list of each "
-    "Schedule/Container, a fixed set of ill-formed lists and non-node objects; "
-    "ordered node pairs for two-node transformations) x every option "
-    "descriptor (no options argument, {}, non-dict, unknown key, every "
-    "(key,value) of the per-key value table for every option key found in the "
-    "class' docstrings or code, all key pairs) is attempted with the real "
-    "apply(); every attempt that executed more than its refusing first nested "
-    "call is re-run once per nested validate/apply/merge/rename_symbol call "
-    "with that call raising TransformationError (SymbolError for symbol-table "
-    "calls).  evaluations = apply() executions of pass 1.  An execution is "
+    "inside it every target (each node [quick tier: one expression node per "
+    "structural context], each consecutive child list of each Schedule/"
+    "Container, a fixed set of ill-formed lists and non-node objects; ordered "
+    "node pairs for two-node transformations) x every option descriptor (no "
+    "options argument, {}, non-dict, unknown key, every (key,value) of the "
+    "per-key value table for every option key found in the class' docstrings "
+    "or code, key pairs, key triples and all keys with their first value) is "
+    "attempted with the real apply(); a target that is refused with {} for "
+    "the same reason (raise site) as a non-node object gets only the four "
+    "base descriptors.  Every attempt that executed nested validate/apply/"
+    "SymbolTable.merge/rename_symbol calls is re-run once per such call with "
+    "that call raising TransformationError (SymbolError for symbol-table "
+    "calls), once per distinct (target, nested call sequence, outcome) "
+    "[thorough: and option-key set].  evaluations = apply() executions "
+    "without injection.  An execution (with or without injection) is "
     "non-trivial iff a TransformationError propagated out of apply() (the "
-    "property's antecedent); distinct = distinct (transformation, ctor, seed, "
+    "property's antecedent); distinct = distinct (seed, transformation, ctor, "
     "raise site or injected call site, target node classes, option "
     "descriptor) tuples among those")
 ASSUMPTIONS = [
-    "the fingerprint (FortranWriter text, view() + argument list + tags of "
-    "every symbol table, class/annotation skeleton + view() of the tree; for "
-    "PSy layers: symbol tables, view(), kernel flags, PSyIR of every "
-    "materialised kernel, and the psy.gen text) observes every change that "
-    "can reach written code",
-    "a tree whose fingerprint is unchanged after an attempt is reused for the "
-    "next attempt of the same work item; every reported violation is first "
+    "judged fingerprint, language-level seeds: FortranWriter text + view(), "
+    "argument list, tags and default visibility of every symbol table + "
+    "class/annotation skeleton and view() of the tree",
+    "judged fingerprint, PSy-layer seeds (weaker reading): statement-level "
+    "class/annotation skeleton, kernel flags (modified, module_inline), "
+    "FortranWriter text + symbol tables of every materialised kernel PSyIR, "
+    "and the psy.gen text; symbol tables / bound expressions of the DSL tree "
+    "are NOT judged by themselves because they are populated lazily by "
+    "read-only queries (dependency analysis) without any effect on the "
+    "generated code",
+    "'nothing changed' is decided by an exact snapshot (C pickler over the "
+    "whole object graph below the root, fparser nodes by name); only when "
+    "the snapshot differs is the judged fingerprint computed, so the "
+    "verdict never depends on the snapshot being minimal",
+    "a tree whose snapshot is unchanged after an attempt is reused for the "
+    "next attempt of the same work item (otherwise it is rebuilt: Node.copy() "
+    "of a pristine parse checked against the parsed seed's snapshot, or "
+    "PSyFactory.create()); every violation seen on a reused tree is first "
     "reproduced on a freshly built seed",
-    "psy.gen mutates the PSy layer, so its text is compared once per work "
-    "item on a fresh build on which all refused attempts were re-executed in "
-    "order (and per attempt if that comparison fails)",
+    "psy.gen mutates the PSy layer, so for refused attempts that left the "
+    "snapshot unchanged its text is compared once per work item on a fresh "
+    "build on which all of them were re-executed in order (and per attempt "
+    "if that comparison fails)",
     "an injected refusal replaces a nested validate()/apply() call of a "
     "transformation class (or SymbolTable.merge/rename_symbol) - call sites "
-    "at which the real callee can refuse; violations seen only under "
-    "injection carry an 'inject:' signature naming that call site",
+    "at which the real callee can refuse; it is judged only if the injected "
+    "error itself (possibly wrapped) propagates out of apply(); violations "
+    "seen only under injection carry an 'inject:' signature naming the "
+    "outermost nested call site and what changed",
     "only TransformationError is judged; other exception types are counted",
 ]
 
@@ -99,6 +118,17 @@ def _setup_env():
 
 
 def cases(tier):
+    import re
+    # C26_ONLY (development only): regular expression restricting the work
+    # items by key; never set for registered runs
+    only = re.compile(os.environ["C26_ONLY"]) if os.environ.get("C26_ONLY") \
+        else None
+    for case in _all_cases(tier):
+        if only is None or only.search(case["key"]):
+            yield case
+
+
+def _all_cases(tier):
     names = _trans_names()
     for kind, seed in _tier_seeds(tier):
         for name in names:
@@ -340,6 +370,8 @@ class Runner:
         self.refused = []       # (targets, odesc, inject) refused + unchanged
         self.caps = {}
         self.sample = None
+        self.sample_rank = -1
+        self.wrong_kind = set()
         self.reused = 0
 
     # -- helpers -----------------------------------------------------------
@@ -444,15 +476,23 @@ class Runner:
                 self._count(f"{mode}:refused-unchanged" +
                             ("(hidden-state-differs)" if res["hidden"] else ""))
                 self.refused.append((tdescs, odesc, inject))
-                if self.sample is None and inject is None and \
-                        res["site"] not in (None, "injected") and \
-                        tdescs[0]["t"] != "py":
-                    self.sample = {
-                        "seed": self.sst.name, "transformation": self.trans,
-                        "target": [core.target_key(d) for d in tdescs],
-                        "target_classes": tcls,
-                        "options": odesc, "refused_at": res["site"],
-                        "message": self._msg(res)}
+                if inject is None and tdescs[0]["t"] != "py" and \
+                        res["site"] not in (None, "injected"):
+                    # sample: prefer a refusal that is not the "wrong kind
+                    # of target" one
+                    rank = 0 if res["site"] in self.wrong_kind else 1
+                    if self.sample is None or rank > self.sample_rank:
+                        self.sample_rank = rank
+                        self.sample = {
+                            "seed": self.sst.name,
+                            "transformation": self.trans,
+                            "ctor": self.ctor,
+                            "target": [core.target_key(d) for d in tdescs],
+                            "target_classes": tcls,
+                            "options": odesc, "refused_at": res["site"],
+                            "nested_calls": [c["label"]
+                                             for c in res["calls"]][:8],
+                            "message": self._msg(res)}
         elif outcome == "ok":
             self._count(f"{mode}:applied" if changed
                         else f"{mode}:accepted-no-change")
@@ -513,7 +553,8 @@ class Runner:
             "case": {"kind": self.case["kind"], "seed": self.sst.name,
                      "trans": self.trans, "ctor": self.ctor,
                      "targets": tdescs, "options": odesc, "inject": inject,
-                     "label": where if inject is not None else None}})
+                     "label": (res["calls"][inject]["label"]
+                               if inject is not None else None)}})
 
     # -- injection loop for one attempt ------------------------------------
     def inject_all(self, tdescs, odesc, res, cap):
@@ -589,7 +630,7 @@ class Runner:
         # "wrong kind of target" refusals of this transformation
         targets = sorted(targets, key=lambda t: 0 if all(
             d["t"] == "py" for d in t) else 1)
-        wrong_kind = set()
+        wrong_kind = self.wrong_kind
         for tdescs in targets:
             shapes = set()
             is_py = all(d["t"] == "py" for d in tdescs)
@@ -600,32 +641,31 @@ class Runner:
                     # the {} attempt
                     if is_py:
                         wrong_kind.add(res["site"])
-                    elif tier == "quick" and res["site"] in wrong_kind and \
+                    elif res["site"] in wrong_kind and \
                             all(c.get("err") is res["err"]
                                 for c in res["calls"]):
-                        # quick tier: a target refused for the same reason as
-                        # a non-node object gets only the four base option
-                        # descriptors
+                        # a target refused for the same reason as a non-node
+                        # object ("wrong kind of target") gets only the four
+                        # base option descriptors
                         rest = len(options) - 4
                         if rest > 0:
-                            self._count("quick:option-sets-skipped-on-"
+                            self._count("pruned:option-sets-skipped-on-"
                                         "wrong-kind-target", rest)
                             skip_rest = True
                         else:
                             skip_rest = False
                         res["skip_rest"] = skip_rest
                 if res["calls"]:
-                    if tier == "quick":
-                        # quick tier: one injection campaign per distinct
-                        # (target, nested call sequence, outcome, raise site)
-                        shape = (tuple(c["label"] for c in res["calls"]),
-                                 res["outcome"], res["site"])
-                        if shape in shapes:
-                            self._count("inject:skipped-same-call-sequence")
-                        else:
-                            shapes.add(shape)
-                            self.inject_all(tdescs, odesc, res, cap)
+                    # one injection campaign per distinct (target, nested
+                    # call sequence, outcome, raise site); the thorough tier
+                    # also distinguishes the set of option keys passed
+                    shape = (tuple(c["label"] for c in res["calls"]),
+                             res["outcome"], res["site"],
+                             tuple(sorted(odesc)) if tier != "quick" else ())
+                    if shape in shapes:
+                        self._count("inject:skipped-same-call-sequence")
                     else:
+                        shapes.add(shape)
                         self.inject_all(tdescs, odesc, res, cap)
                 if onum == 1 and res.get("skip_rest"):
                     skipping = True
@@ -689,8 +729,7 @@ def replay(case):
     run = Runner(fake)
     res = run.attempt(case["targets"], case["options"],
                       inject=case.get("inject"),
-                      expect_label=(case.get("label") or "").rsplit("#", 1)[0]
-                      if case.get("inject") is not None else None)
+                      expect_label=case.get("label"))
     if not run.viol and case["kind"] == "p":
         run.gen_pass()
     return {"outcome": res["outcome"], "site": res["site"],
